@@ -358,7 +358,7 @@ func (u *Universe) structInfo(key types.Type, st *types.Struct) *StructInfo {
 	for i := 0; i < st.NumFields(); i++ {
 		f := st.Field(i)
 		fs := u.SortOf(f.Type())
-		si.Fields = append(si.Fields, FieldInfo{Name: f.Name(), Sel: fmt.Sprintf("%s_%s", name, mangle(f.Name())), Type: f.Type(), Sort: fs})
+		si.Fields = append(si.Fields, FieldInfo{Name: f.Name(), Sel: fmt.Sprintf("%s_f%d_%s", name, i, mangle(f.Name())), Type: f.Type(), Sort: fs})
 	}
 	u.structSeq = append(u.structSeq, si) // appended after its dependencies
 	return si
